@@ -884,6 +884,15 @@ def operator_catalogue(rng):
         "FresnelPropagator": (lambda j, d: optics.FresnelPropagator((4, 6), dx=1.0, k0=1.0, z=2.0, jit=j), ["complex64"], True),
         "FraunhoferPropagator": (lambda j, d: optics.FraunhoferPropagator((4, 6), dx=1.0, k0=1.0, z=36.0, jit=j), ["complex64"], True),
         "AngularSpectrumPropagator-1d": (lambda j, d: optics.AngularSpectrumPropagator((8,), dx=1.0, k0=1.0, z=2.0, jit=j), ["complex64"], True),
+        # generic LinearOperator from eval_fn only: the adjoint is derived automatically (R->R, C->C, R->C)
+        "LinearOperator(eval_fn)-RR": (lambda j, d: linop.LinearOperator(sh, eval_fn=lambda v: 1.5 * v + snp.roll(v, 1, 0),
+                                                                         input_dtype=dt(d), jit=j), R, True),
+        "LinearOperator(eval_fn)-CC": (lambda j, d: linop.LinearOperator(sh, eval_fn=lambda v: (1.5 - 0.5j) * v + snp.roll(v, 1, 0),
+                                                                         input_dtype=dt(d), jit=j), C, True),
+        "LinearOperator(eval_fn)-RC": (lambda j, d: linop.LinearOperator(sh, eval_fn=lambda v: (1.5 - 0.5j) * v + 2j * snp.roll(v, 1, 0),
+                                                                         input_dtype=dt(d), jit=j), R, True),
+        "LinearOperator(eval_fn)-RC-stacked": (lambda j, d: _jitif(linop.LinearOperator(
+            sh, eval_fn=lambda v: (0.5 + 2j) * v, input_dtype=dt(d), jit=False) @ linop.Diagonal(snp.array(d1.astype(d))), j), R, True),
         "Abs": (lambda j, d: operator.Abs(sh, input_dtype=dt(d), jit=j), R + C, False),
         "Angle": (lambda j, d: operator.Angle(sh, input_dtype=dt(d), jit=j), C, False),
         "Exp": (lambda j, d: operator.Exp(sh, input_dtype=dt(d), jit=j), R, False),
@@ -990,8 +999,24 @@ def check_jit_option(ctx, rng, cat):
                 evals.append(("T", lambda o: o.T(yy)))
             else:
                 evals.append(("T", lambda o: o.T(yy)))
+        # call order: adj used BEFORE .jit() vs .jit() first (objects whose adjoint is derived lazily)
+        pre = None
+        if kind is not False and y[0] == "ok" and (not ctx.quick or name.startswith(("LinearOperator(", "Composed", "Sum-of"))):
+            pre = build(False, d)
+            r0 = outcome(lambda: (pre.adj(y[1]), pre.jit()))
+            if r0[0] == "exc":
+                pre = None
         for meth, ev in evals:
             a, b = outcome(lambda: ev(on)), outcome(lambda: ev(off))
+            if pre is not None and meth != "__call__":
+                c = outcome(lambda: ev(pre))
+                ctx.count("jit-option", {"class": name, "dtype": d, "method": meth, "order": "adj before jit()"})
+                okc, whyc = same_outcome(a, c, TOL[d])
+                if not okc:
+                    ctx.violation(f"{name}.{meth}", "object jitted at construction and object whose adj was used before .jit() disagree",
+                                  {"operator": name, "dtype": d, "method": meth, "mode": "jit() first vs adj before jit()",
+                                   "x": np.asarray(blocks_of(x)[0]).tolist()},
+                                  expected="agreement to rounding", observed=whyc, oracle="call order of adj and jit()")
             ctx.count("jit-option", {"class": name, "dtype": d, "method": meth})
             ok, why = same_outcome(a, b, TOL[d])
             if not ok:
